@@ -540,6 +540,25 @@ static bool has_ldouble(Type *ty) {
   return ty->kind == TY_LDOUBLE;
 }
 
+// How va_arg fetches a value of type `ty` (the __builtin_reg_class of
+// <stdarg.h>): 0 from a general-purpose register, 1 from a vector
+// register, 2 from memory. A struct or union that is passed in
+// registers yields 4 plus a bit for each eightbyte that travels in a
+// vector register (1 for the first, 2 for the second).
+int va_arg_class(Type *ty) {
+  if (is_integer(ty) || ty->kind == TY_PTR)
+    return 0;
+  if (ty->kind == TY_FLOAT || ty->kind == TY_DOUBLE)
+    return 1;
+
+  if (ty->kind == TY_STRUCT || ty->kind == TY_UNION) {
+    if (ty->size == 0 || ty->size > 16 || has_ldouble(ty))
+      return 2;
+    return 4 + (has_flonum1(ty) ? 1 : 0) + (ty->size > 8 && has_flonum2(ty) ? 2 : 0);
+  }
+  return 2;
+}
+
 // Computes how many general-purpose and SSE registers a struct or union
 // of at most 16 bytes occupies when it is passed or returned in
 // registers. Returns false if it has to go to memory.
